@@ -101,6 +101,17 @@ class Structure(Monitor):
             world.violate(P, P + ".history_immutable", "row count shrank %d -> %d" % (m, snap["n"]))
         if snap["kind"] != "integrate":
             return
+        # paired by content: every new row (t, y) is (t0 + dTime, y0 + dState) of ONE completed integrator call that started at the row
+        # before it (a time stamped from elsewhere next to the state of a shorter step is not a pair)
+        if P == "C03":
+            for j in range(max(m - 1, 0), snap["n"] - 1):
+                if match_icall(world, t[j], y[j], t[j + 1]) is None:
+                    cands = [c for c in world.icalls if c["depth"] == 0 and c["ok"] and bitwise_equal(c["t0"], t[j]) and bitwise_equal(c["y0"], y[j])]
+                    if cands and any(bitwise_equal(np.asarray(c["y0"] + c["dState"], dtype=y.dtype), y[j + 1]) for c in cands):
+                        c = [c for c in cands if bitwise_equal(np.asarray(c["y0"] + c["dState"], dtype=y.dtype), y[j + 1])][-1]
+                        world.violate(P, P + ".paired", "row %d: time %r is stored next to the state reached at %r (the step taken from row %d had dTime=%r)"
+                                      % (j + 1, _f(t[j + 1]), _f(c["t0"] + c["dTime"]), j, _f(c["dTime"])))
+                        break
         target = self.target
         start = self.start_t
         seg = np.asarray(t[m - 1:]) if m >= 1 else np.asarray(t)      # native precision
